@@ -19,4 +19,5 @@ var (
 	ErrInvalidHeader          = sdkerrors.Register(moduleName, 8, "invalid client header")
 	ErrClientNotActive        = sdkerrors.Register(moduleName, 9, "client is not active")
 	ErrUpgradeClient          = sdkerrors.Register(moduleName, 10, "Upgrade client failed")
+	ErrInvalidRelayer         = sdkerrors.Register(moduleName, 11, "invalid relayer")
 )
